@@ -257,7 +257,8 @@ func (c *trCtx) rangeStmt(x *ast.RangeStmt, k trK) trLines {
 			return trOne(tuple)
 		}
 		c.loop = &trLoopCtx{kind: "range", cont: cont, outer: savedLoop}
-		defer func() { c.loop = savedLoop }()
+		c.inLambda++
+		defer func() { c.loop = savedLoop; c.inLambda-- }()
 		body := c.stmts(x.Body.List, cont)
 		elTy := et
 		if keyName != "" {
